@@ -51,10 +51,15 @@ silence)
   done <<'LIST'
 B1-reword C01 C02 C03 C04 C07 C08 C09 C10 C11 C12 C13 C15 C16 C18 C20
 B2-cap C02 C04 C08 C10 C18
-B3-revorder C03 C08 C09 C11 C18
-B4-record-first C08 C09 C10 C11
+B3-revorder C03 C08 C09 C11 C15 C16 C18
+B4-record-first C08 C09 C10 C11 C15 C16
 B5-linear-responder C02 C04 C10 C12
-B6-loop-scan C01 C07 C08 C10 C11
+B6-loop-scan C01 C07 C08 C10 C11 C15 C16
+B7-method-table-vec C01 C02 C03 C04 C07 C08 C09 C10 C11 C12 C13 C15 C16 C18 C20
+B8-ordered-index C02 C04 C08 C10 C18
+B9-separator-loop C01 C04 C07 C08 C16
+B10-packed-starts C02 C03 C04 C10 C12
+B11-panic-in-caller-frame C07 C08 C09 C10 C11 C15 C16
 LIST
   exit $FAIL ;;
 *) echo "usage: selftest.sh determinism [runs] | sensitivity [glob] | silence"; exit 2 ;;
